@@ -913,5 +913,5 @@ int main(int argc, char **argv) {
     std::string out = args.get("out", "");
     if (!out.empty() && !rep.write(out)) return 2;
     printf("%s %s: cases=%llu violations=%llu wall=%.1fs\n", g_prop.c_str(), g_cfg.c_str(), g_cases, rep.violations(), clock_().elapsed());
-    return 0;
+    return args.has("exitcode") && rep.violations() ? 1 : 0;
 }
